@@ -344,15 +344,31 @@ package keeper
 //@   props C15
 //@   pure
 //@   loop IterateWrkChains.0: invariant it_store == wrk_store && wrk_store == old(wrk_store)
+// The record listing of the genesis export (C15): the newest 20,000 records of the registration (all of them when there
+// are fewer), in ascending height order, each in its genesis form exactly as stored, and without gaps - every stored
+// record at or above the lowest exported height is in the list.
 //@ func Keeper.GetAllWrkChainBlockHashesForGenesisExport(ctx, wrkchainID) (wrkChainBlocks)
 //@   props C15
 //@   pure
+//@   requires BLK_KEYED(wrk_store, wrkchainID)
+//@   let bs := wrkChainBlocks
+//@   ensures @at_most_the_cap len(bs) <= 20000
+//@   ensures @ascending forall i int, j int :: {bs[i], bs[j]} 0 <= i && i < j && j < len(bs) ==> bs[i].He < bs[j].He
+//@   ensures @as_stored forall j int :: {bs[j]} 0 <= j && j < len(bs) ==> blkHas(wrk_store, wrkchainID, bs[j].He) && bs[j] == blkExp(blkGet(wrk_store, wrkchainID, bs[j].He))
+//@   ensures @newest_without_gaps forall h uint64 :: {wrk_store[kBlock(wrkchainID, h)]} blkHas(wrk_store, wrkchainID, h) && (len(bs) < 20000 || h >= bs[0].He) ==> exists j int :: 0 <= j && j < len(bs) && bs[j].He == h
 //@   loop IterateWrkChainBlockHashesReverse.0: invariant it_store == wrk_store && wrk_store == old(wrk_store)
+//@   loop IterateWrkChainBlockHashesReverse.0: invariant it_valid ==> isBlockKey(it_key) && blockKeyId(it_key) == wrkchainID && blkHas(wrk_store, wrkchainID, blockKeyH(it_key))
+//@   loop IterateWrkChainBlockHashesReverse.0: invariant len(wrkChainBlocks) == count && 0 <= count && count < 20000
+//@   loop IterateWrkChainBlockHashesReverse.0: invariant forall j int :: {wrkChainBlocks[j]} 0 <= j && j < len(wrkChainBlocks) ==> blkHas(wrk_store, wrkchainID, wrkChainBlocks[j].He) && wrkChainBlocks[j] == blkExp(blkGet(wrk_store, wrkchainID, wrkChainBlocks[j].He)) && (it_valid ==> blockKeyH(it_key) < wrkChainBlocks[j].He)
+//@   loop IterateWrkChainBlockHashesReverse.0: invariant forall i int, j int :: {wrkChainBlocks[i], wrkChainBlocks[j]} 0 <= i && i < j && j < len(wrkChainBlocks) ==> wrkChainBlocks[i].He < wrkChainBlocks[j].He
+//@   loop IterateWrkChainBlockHashesReverse.0: invariant forall h uint64 :: {wrk_store[kBlock(wrkchainID, h)]} blkHas(wrk_store, wrkchainID, h) && (!it_valid || h > blockKeyH(it_key)) ==> exists j int :: 0 <= j && j < len(wrkChainBlocks) && wrkChainBlocks[j].He == h
 // copy() on overlapping slices is outside the generator's subset: assumed contract on this four-line helper
 //@ func prependBlock(x, y) (r)
 //@   trusted shifts the list by one with the builtin copy and puts y first; touches no state
 //@   pure
 //@   ensures len(r) == len(x) + 1 && r[0] == y
+//@   ensures forall i int :: {x[i]} 0 <= i && i < len(x) ==> r[i+1] == x[i]
+//@   ensures forall i int :: {r[i]} 1 <= i && i < len(r) ==> r[i] == x[i-1]
 
 // ================================================================ point queries (C07, C20): the stored value of exactly that key
 //@ func Keeper.WrkChain(c, req) (resp, err)
